@@ -38,6 +38,27 @@ Streams:
      the same cross-check of reported against recorded settings at every observation;
   3. Analyzer probes and histories.
 
+Two dimensions run through all three streams:
+  THE SIZE OF A CHANGE.  Next to the usual large reconfigurations every kind of reconfiguration also comes SMALL (1e-3 ...
+     1e-12): Parameter steps (["param_step", which, delta]: a generic reflectivity p, a reflectivity q next to the Hong-Ou-
+     Mandel dip, a phase r next to the dark port of an interferometer), a circuit assigned that differs from the last one
+     in ONE reflectivity / phase / loss value (["circuit_near", base, eps], Fam 'near:<base>:<eps>'), one source value /
+     the probability threshold / detector efficiency / dark-count probability moved in place (["source_nudge"],
+     ["detector_nudge"], nudged values of shared components).  The snapshot is compared EXACTLY, so every one of them
+     is a reconfiguration: the correspondence layer abstracts U_full and the source values by their exact bits and names
+     a skipped recomputation even when the distributions differ by less than any tolerance; the long-lived-vs-fresh
+     oracle compares every entry RELATIVELY (REL_TOL; on the unchanged library the two are bit-identical), the circuits
+     next to a dip have entries of 1e-9 ... 1e-8 (around the library's cut-off) that change by a large factor under a
+     step of 1e-6, and post-selected sample counts (N = 2000, fixed seed) are taken on them.
+  POST-SELECTION GIVEN AS FUNCTIONS that look alike ({"fn": [style, pred, a, b]}, see mk_fn): closures of one factory with
+     different captured values, lambdas made in a loop with default arguments, keyword-only defaults, nested closures,
+     one code object bound to different globals, separately written lambdas, functools.partial objects / bound methods of
+     two instances / callable objects (raw: the setter may refuse them, then nothing may change; and wrapped by one
+     adapter), the SAME function object assigned again, another function object with the same values - assigned to
+     QuickSamplers and Analyzers (one object shared by several holders in stream 1) and passed as the `post_select`
+     argument of a Sampler's sampling calls (same N and seed, only the function differs).  Results follow the CURRENT
+     function.
+
 Correspondence layer (harness/c11corr.py, driver op "cache"): in streams 1 and 2 every long-lived Sampler /
 QuickSampler is ALSO run on the cache model.  At every observation the object's configuration is abstracted to
 the model's SamplerCfg / QuickCfg (public attributes only; values interned with the code's own equality), and
@@ -56,8 +77,10 @@ on the F10 and F30 witnesses.
 
 from __future__ import annotations
 
+import functools
 import json
 import random as pyrandom
+import types
 
 import numpy as np
 
@@ -69,7 +92,8 @@ from lightworks import emulator
 TRUSTED = [
     "Lean 4.33 kernel; axioms subset of {propext, Classical.choice, Quot.sound} (audited on every run)",
     "the cache model LW.Model.Cache abstracts U_full/source values to identifiers with decidable equality; the harness "
-    "interns the values with the code's own equality (arrays: shape and element-wise ==, PostSelection objects: identity)",
+    "interns the values with the code's own equality (arrays: shape and element-wise == on the exact bits, numbers: ==, "
+    "PostSelection objects and the wrappers of post-selection functions: identity)",
     "the implementation 'recomputed' iff sampler.pdist_calc / Backend.probability was entered or the "
     "probability_distribution getter raised while the long-lived object was observed (counting wrappers installed by "
     "the harness for the duration of the run; self-tested on every run)",
@@ -78,15 +102,79 @@ TRUSTED = [
     "numpy / stdlib PRNG determinism for equal seeds",
 ]
 ASSUMPTIONS = ["histories of 4-14 steps on circuits with <= 4 modes (<= 7 after in-place extension), <= 3 user photons",
+               "small reconfigurations: sizes 1e-3 ... 1e-12 (a step below the spacing of floats changes nothing and is not a "
+               "reconfiguration); functions given as post-selection are pure (what a function captured is never changed after it "
+               "was handed over: a sampler cannot see inside a function)",
                "shared-component histories: <= 5 holders, two Backend / Source / Detector objects each",
                "default components: <= 5 holders (<= 6 in the directed corpus) created on defaults per world, every call form; the "
                "default post-selection of QuickSampler / Analyzer is tuned in place only if it accepts rules (the library's does not)"]
 
 
+TINY = [1e-3, 1e-5, 4e-6, 1e-6, 1e-7, 1e-9, 1e-12]   # sizes of the SMALL reconfigurations (steps, offsets, nudges)
+HOM_R, MZI_PHI, HOM_LEAK = 0.50002, float(np.pi) + 1e-4, 6e-5
+
+
+def near_circuit(base: str, eps: float):
+    """a NEW circuit object that differs from its eps = 0 sibling in ONE value by eps: a generic circuit (one
+    reflectivity / one loss value), and two circuits that sit next to an interference dip, where the small
+    probabilities (1e-9 ... 1e-8, around the library's cut-off) react to eps with a large RELATIVE change"""
+    c = lw.Circuit(3)
+    if base == "generic":
+        c.bs(0, 1, reflectivity=0.4 + eps)
+        c.bs(1, 2, reflectivity=0.3)
+        c.ps(0, 0.7)
+    elif base == "lossy":
+        c.bs(0, 1, reflectivity=0.4)
+        c.bs(1, 2, reflectivity=0.3, loss=0.2 + eps)
+    elif base == "hom":
+        c.bs(0, 1, reflectivity=HOM_R + eps)
+        c.bs(1, 2, reflectivity=1 - HOM_LEAK)
+    elif base == "mzi":
+        c.bs(0, 1)
+        c.ps(0, MZI_PHI + eps)
+        c.bs(0, 1)
+        c.bs(1, 2, reflectivity=0.4)
+    else:
+        raise KeyError(base)
+    return c
+
+
+def near_name(base: str, eps: float) -> str:
+    return f"near:{base}:{float(eps)!r}"
+
+
+class Fam(dict):
+    """the circuits of one history by name; 'near:<base>:<eps>' is built on first use (and then stays the same object);
+    `params`: the Parameter objects the circuits are built from"""
+
+    params: dict
+
+    def __missing__(self, key):
+        if isinstance(key, str) and key.startswith("near:"):
+            _, base, eps = key.split(":")
+            self[key] = near_circuit(base, float(eps))
+            return self[key]
+        raise KeyError(key)
+
+
 def circuits(rng):
     """a family of circuits on 3 visible modes; several share U_full but differ in heralds / modes"""
-    fam = {}
+    fam = Fam()
     p = lw.Parameter(0.3)
+    # two circuits next to an interference dip, on Parameters of their own: a Hong-Ou-Mandel dip (reflectivity q next to
+    # 1/2: the coincidence probability is (1 - 2q)^2) and the dark port of a Mach-Zehnder interferometer (phase r next to pi)
+    q, r = lw.Parameter(HOM_R), lw.Parameter(MZI_PHI)
+    fam.params = {"p": p, "q": q, "r": r}
+    c = lw.Circuit(3)
+    c.bs(0, 1, reflectivity=q)
+    c.bs(1, 2, reflectivity=1 - HOM_LEAK)
+    fam["dip_hom"] = c
+    c = lw.Circuit(3)
+    c.bs(0, 1)
+    c.ps(0, r)
+    c.bs(0, 1)
+    c.bs(1, 2, reflectivity=0.4)
+    fam["dip_mzi"] = c
     for hp in (0, 1):
         c = lw.Circuit(4)
         c.bs(0, 1, reflectivity=0.4)
@@ -181,13 +269,16 @@ MOVED_HERALD = [("herald_out0", "herald_out2"), ("herald_out2", "herald_out0"), 
 def gen_history(ctx: Ctx, rng, kind: str) -> list:
     steps = []
     names = ["idleherald0", "idleherald1", "plain", "lossy", "heralded_sub", "swap", "herald_out0", "herald_out2",
-             "herald_in0", "lossy1"]
+             "herald_in0", "lossy1", "dip_hom", "dip_mzi"]
     inputs = [[1, 0, 0], [1, 1, 0], [0, 1, 1], [2, 0, 0], [0, 0, 0], [1, 1, 1], [1, 0, 1]]
+    directed = _gen_small_or_fn(ctx, rng, kind) if rng.random() < 0.3 else []
     if rng.random() < 0.3:
         # the long-lived object runs on DEFAULT components (arguments left out / None / None by position)
         steps.append(["ctor", rng.choice(FORMS)])
         ctx.count(f"defaults:{kind}:long_lived_object_on_default_components")
-    if rng.random() < 0.14:
+    if directed:
+        steps += directed
+    elif rng.random() < 0.14:
         # directed: the long-lived object and ANOTHER object are both created on default components; the other one's
         # defaults are tuned in place between two observations of the long-lived object (which must not follow);
         # then the long-lived object's own defaults are tuned in place / reset by assigning None
@@ -254,21 +345,44 @@ def gen_history(ctx: Ctx, rng, kind: str) -> list:
             steps.append(_gen_decoy(rng, kind, steps))
             continue
         r = rng.random()
+        small = rng.random() < 0.4   # the SIZE of a change is a dimension: 1e-3 ... 1e-12 next to the usual large ones
         if r < 0.22:
-            steps.append(["circuit", rng.choice(names)])
+            if small and rng.random() < 0.5:
+                base = rng.choice(NEAR_BASES)
+                steps.append(["circuit_near", base, _small(rng) if any(s[:2] == ["circuit_near", base] for s in steps) else 0.0])
+                ctx.count(f"{kind}:small:circuit_assigned_that_differs_in_one_value")
+            else:
+                steps.append(["circuit", rng.choice(names)])
         elif r < 0.3:
             steps.append(["mutate_circuit", rng.choice(EDITS), rng.randrange(2)])
         elif r < 0.38:
-            steps.append(["param", rng.choice([0.1, 0.5, 0.9])])
+            if small:
+                steps.append(["param_step", rng.choice(["p", "p", "q", "r"]), _small(rng)])
+                ctx.count(f"{kind}:small:param_step")
+            else:
+                steps.append(["param", rng.choice([0.1, 0.5, 0.9])])
         elif r < 0.5:
             steps.append(["input", rng.choice(inputs)])
         elif kind == "sampler" and r < 0.58:
-            steps.append(["source", rng.choice([[1, 1, 1], [0.8, 1, 1], [1, 0.9, 1], [1, 1, 0.7], [0.9, 0.95, 0.8]]),
-                          rng.random() < 0.5])
+            if small:
+                steps.append(rng.choice([["source_nudge", rng.randrange(4), _small(rng)], ["source_nudge", rng.randrange(3), _small(rng)],
+                                         ["detector_nudge", rng.randrange(2), _small(rng)]]))
+                ctx.count(f"sampler:small:{steps[-1][0]}")
+            else:
+                steps.append(["source", rng.choice([[1, 1, 1], [0.8, 1, 1], [1, 0.9, 1], [1, 1, 0.7], [0.9, 0.95, 0.8]]),
+                              rng.random() < 0.5])
         elif kind == "sampler" and r < 0.63:
             steps.append(["backend", rng.choice(["permanent", "slos"])])
         elif kind == "quick" and r < 0.58:
-            steps.append(["post_select", rng.choice([None, [[0], [1]], [[0, 1], [1, 2]], [[2], [0]]])])
+            if rng.random() < 0.45:
+                # post-selection given as a FUNCTION: mostly one that differs from the last one in nothing but the
+                # values it captured; a callable that is no plain function; the same function object once more
+                last = next((s[1] for s in reversed(steps) if s[0] == "post_select_fn"), None)
+                steps.append(["ps_fn_same"] if last and rng.random() < 0.15 else
+                             ["post_select_fn", gen_fn(rng, FN_STYLES if rng.random() < 0.25 else FN_PLAIN + FN_WRAPPED, like=last)])
+                ctx.count(f"quick:fn:{steps[-1][0]}")
+            else:
+                steps.append(["post_select", rng.choice([None, [[0], [1]], [[0, 1], [1, 2]], [[2], [0]]])])
         elif kind == "quick" and r < 0.61:
             steps.append(["pnr", rng.random() < 0.5])
         elif kind == "quick" and r < 0.66:
@@ -284,6 +398,93 @@ def gen_history(ctx: Ctx, rng, kind: str) -> list:
             steps.append(["sample_N_inputs", rng.choice([5, 20]), rng.randrange(1000)])
         else:
             steps.append(["read"])
+        if kind == "sampler" and steps[-1][0] in ("sample_N_outputs", "sample_N_inputs") and rng.random() < 0.4:
+            # the post-selection of the call: rules or a function (mostly like the one of the last call, same seed)
+            last = next((s for s in reversed(steps[:-1]) if s[0] in ("sample_N_outputs", "sample_N_inputs") and len(s) > 3 and is_fn(s[3])), None)
+            if last and rng.random() < 0.6:
+                steps[-1] = [steps[-1][0], last[1], last[2], gen_fn(rng, like=last[3])]
+            else:
+                steps[-1].append(rng.choice([gen_fn(rng, FN_STYLES), gen_fn(rng), [[0], [1]], [[2], [0]]]))
+            ctx.count("sampler:call_argument:post_select:" + ("function" if is_fn(steps[-1][3]) else "rules"))
+    return steps
+
+
+NEAR_BASES = ["generic", "lossy", "hom", "mzi"]
+DIP_RULE = {"dip_hom": ["coinc", 0, 1], "hom": ["coinc", 0, 1], "dip_mzi": ["has", 0, 0], "mzi": ["has", 0, 0]}
+
+
+def _small(rng) -> float:
+    return rng.choice(TINY) * rng.choice([1, -1])
+
+
+def _gen_small_or_fn(ctx: Ctx, rng, kind: str) -> list:
+    """directed openings.  (1) the SIZE of a reconfiguration: between two observations ONE thing changes by 1e-3 ... 1e-12 -
+    a Parameter step (generic circuits and circuits next to an interference dip, where probabilities of 1e-9 ... 1e-8
+    change by a large factor), a circuit assigned that differs from the last one in one value, one source / detector
+    value moved in place; observed by reads and by (post-selected) sample counts under a fixed seed.  (2) post-selection
+    given as FUNCTIONS that look alike: assigned to a QuickSampler, passed as the argument of a Sampler's sampling calls."""
+    sd = rng.randrange(1000)
+    r = rng.random()
+    if r < 0.55 or (r < 0.75 and kind == "quick"):
+        # (1) circuits
+        if rng.random() < 0.6:
+            which, cname, inp = rng.choice([("q", "dip_hom", [1, 1, 0]), ("q", "dip_hom", [1, 1, 0]), ("r", "dip_mzi", [1, 0, 0]),
+                                            ("r", "dip_mzi", [0, 1, 0]), ("r", "dip_mzi", [1, 1, 0]), ("p", "plain", [1, 1, 0]),
+                                            ("p", "lossy", [1, 1, 0]), ("p", "heralded_sub", [1, 0, 1]), ("p", "idleherald1", [0, 1, 1])])
+            change = [["param_step", which, _small(rng)]]
+            start = [["input", inp], ["circuit", cname]]
+            ctx.count(f"directed:small:param_step:{cname}")
+        else:
+            base = rng.choice(NEAR_BASES)
+            cname, inp = base, {"hom": [1, 1, 0], "mzi": rng.choice([[1, 0, 0], [1, 1, 0]])}.get(base, rng.choice([[1, 1, 0], [1, 0, 1]]))
+            change = [["circuit_near", base, _small(rng)]]
+            start = [["input", inp], ["circuit_near", base, 0.0]]
+            ctx.count(f"directed:small:circuit_near:{base}")
+        obs = [["read"], ["read"], ["sample", sd], ["sample_N_outputs", 2000, sd]]
+        if kind == "sampler":
+            rule = {"fn": [rng.choice(FN_PLAIN), *DIP_RULE.get(cname, rng.choice(FN_PREDS))]}
+            obs += [["sample_N_outputs", 2000, sd, rule], ["sample_N_outputs", 2000, sd, rule], ["sample_N_inputs", 300, sd]]
+        steps = start + [rng.choice(obs)] + change + [rng.choice(obs)]
+        if rng.random() < 0.5:
+            steps += [[*change[0][:2], _small(rng)], rng.choice(obs)]
+        return steps
+    if r < 0.75:
+        # (1) one source / detector value of a Sampler
+        base = rng.choice(SH_SRC)
+        start = [["input", rng.choice([[1, 1, 0], [1, 0, 1], [2, 0, 0]])], ["circuit", rng.choice(["plain", "lossy", "dip_hom", "herald_out0"])],
+                 ["source", base, rng.random() < 0.5]]
+        if rng.random() < 0.65:
+            obs = [["read"], ["read"], ["sample", sd], ["sample_N_outputs", 500, sd], ["sample_N_inputs", 300, sd]]
+            change = ["source_nudge", rng.randrange(4), _small(rng)]
+        else:
+            obs = [["sample_N_inputs", 300, sd], ["sample_N_outputs", 300, sd], ["sample", sd]]
+            change = ["detector_nudge", rng.randrange(2), _small(rng)]
+            if rng.random() < 0.5:
+                start.append(["detector", rng.choice(SH_DET)])
+        ctx.count(f"directed:small:{change[0]}:{change[1]}")
+        return start + [rng.choice(obs), change, rng.choice(obs)] + ([[*change[:2], _small(rng)], rng.choice(obs)] if rng.random() < 0.4 else [])
+    inp = rng.choice([[1, 1, 0], [1, 0, 1], [0, 1, 1], [2, 0, 0], [1, 1, 1]])
+    start = [["input", inp], ["circuit", rng.choice(["plain", "plain", "lossy", "swap", "herald_out0", "heralded_sub"])]]
+    a = gen_fn(rng, FN_STYLES if rng.random() < 0.3 else FN_PLAIN + FN_WRAPPED)
+    if kind == "quick":
+        # (2) functions assigned to the QuickSampler: A, then B that differs from A in the captured values only, the same
+        # object again, an equal function through a new object, a third one
+        obs = [["read"], ["read"], ["sample", sd], ["sample_N_outputs", 200, sd]]
+        b = gen_fn(rng, like=a)
+        steps = start + [["post_select_fn", a], rng.choice(obs), ["post_select_fn", b], rng.choice(obs)]
+        for _ in range(rng.randint(0, 3)):
+            steps += [rng.choice([["ps_fn_same"], ["ps_equal_new"], ["post_select_fn", gen_fn(rng, like=b)], ["post_select_fn", gen_fn(rng, FN_STYLES)],
+                                  ["post_select", rng.choice([None, [[0], [1]]])]]), rng.choice(obs)]
+        ctx.count("directed:fn:assigned_to_quick_sampler:" + a["fn"][0])
+        return steps
+    # (2) functions as the argument of the Sampler's sampling calls (same N, same seed: only the function differs)
+    n = rng.choice([50, 200])
+    steps = start + ([["read"]] if rng.random() < 0.5 else [])
+    f = a
+    for _ in range(rng.randint(2, 4)):
+        steps.append([rng.choice(["sample_N_outputs", "sample_N_outputs", "sample_N_inputs"]), n, sd, f])
+        f = gen_fn(rng, like=f) if rng.random() < 0.8 else rng.choice([f, None, [[0], [1]]])
+    ctx.count("directed:fn:argument_of_sampler_calls:" + a["fn"][0])
     return steps
 
 
@@ -302,16 +503,143 @@ def _gen_decoy(rng, kind: str, steps: list = ()) -> list:
     return ["decoy", rng.choice(FORMS), "ps_add", rng.choice([[[0], [1]], [[1], [0, 1]], [[2], [0]]])]
 
 
+# ------------------------------------------------------------------------------------------------
+# POST-SELECTION GIVEN AS A FUNCTION.  {"fn": [style, pred, a, b]} stands for a callable with the meaning
+#     pred = "has":   mode a holds exactly b photons          pred = "coinc": modes a and b hold equally many photons
+# made in one of the ways in which Python produces EQUAL-LOOKING BUT DISTINCT functions (`style`).  Every call of `mk_fn`
+# returns a NEW object; two objects of one style and pred share their code object (same source line) and differ only in
+# what they captured: closure cells ("factory", "nested"), default arguments ("loop": lambdas made in a loop), keyword-only
+# defaults ("kwonly"), the globals they are bound to ("globals"); "distinct": separately written lambdas (all named
+# "<lambda>", different code).  "partial" / "method" / "callable": functools.partial objects, bound methods of two
+# instances, callable objects - these are not plain functions (the library's setter may refuse them: then the settings
+# stay as they were, for the long-lived object as for a fresh one); "<style>_w": the same wrapped into a plain function
+# by ONE adapter (`lambda s: inner(s)`), as a user would do to get them accepted.
+
+FN_PLAIN = ("factory", "loop", "kwonly", "nested", "globals", "distinct")
+FN_OBJECTS = ("partial", "method", "callable")
+FN_WRAPPED = tuple(x + "_w" for x in FN_OBJECTS)
+FN_STYLES = FN_PLAIN + FN_OBJECTS + FN_WRAPPED
+_G_HAS = lambda s: s[X] == Y  # noqa: E731, F821  (bound to new globals {"X": a, "Y": b} by mk_fn)
+_G_COINC = lambda s: s[X] == s[Y]  # noqa: E731, F821
+
+
+def _pred_ab(pred, a, b, s):
+    return s[a] == b if pred == "has" else s[a] == s[b]
+
+
+class _ModeRule:
+    def __init__(self, pred, a, b) -> None:
+        self.pred, self.a, self.b = pred, a, b
+
+    def check(self, s):
+        return _pred_ab(self.pred, self.a, self.b, s)
+
+    __call__ = check
+
+
+def _fn_factory(pred, a, b):
+    if pred == "has":
+        return lambda s: s[a] == b
+    return lambda s: s[a] == s[b]
+
+
+def _fn_nested(pred, a, b):
+    def outer(x):
+        def mid(y):
+            if pred == "has":
+                return lambda s: s[x] == y
+            return lambda s: s[x] == s[y]
+        return mid
+    return outer(a)(b)
+
+
+def _fn_adapt(inner):
+    return lambda s: inner(s)
+
+
+def mk_fn(spec):
+    """a NEW callable for {"fn": spec}["fn"] = [style, pred, a, b]"""
+    style, pred, a, b = spec
+    if style == "factory":
+        return _fn_factory(pred, a, b)
+    if style == "nested":
+        return _fn_nested(pred, a, b)
+    if style == "loop":
+        made = {}
+        for x in range(4):
+            for y in range(4):
+                made[x, y] = (lambda s, x=x, y=y: s[x] == y) if pred == "has" else (lambda s, x=x, y=y: s[x] == s[y])
+        return made[a, b]
+    if style == "kwonly":
+        return (lambda s, *, x=a, y=b: s[x] == y) if pred == "has" else (lambda s, *, x=a, y=b: s[x] == s[y])
+    if style == "globals":
+        return types.FunctionType((_G_HAS if pred == "has" else _G_COINC).__code__, {"X": a, "Y": b})
+    if style == "distinct":
+        written = {("has", 0, 0): lambda s: s[0] == 0, ("has", 1, 0): lambda s: s[1] == 0, ("has", 2, 0): lambda s: s[2] == 0,
+                   ("has", 0, 1): lambda s: s[0] == 1, ("has", 1, 1): lambda s: s[1] == 1, ("has", 2, 1): lambda s: s[2] == 1,
+                   ("has", 0, 2): lambda s: s[0] == 2, ("has", 1, 2): lambda s: s[1] == 2, ("has", 2, 2): lambda s: s[2] == 2,
+                   ("coinc", 0, 1): lambda s: s[0] == s[1], ("coinc", 1, 2): lambda s: s[1] == s[2],
+                   ("coinc", 0, 2): lambda s: s[0] == s[2]}
+        return written.get((pred, a, b)) or _fn_factory(pred, a, b)
+    base = style.split("_")[0]
+    inner = (functools.partial(_pred_ab, pred, a, b) if base == "partial" else _ModeRule(pred, a, b).check if base == "method"
+             else _ModeRule(pred, a, b))
+    return _fn_adapt(inner) if style.endswith("_w") else inner
+
+
+FN_PREDS = [["has", 0, 0], ["has", 1, 0], ["has", 2, 0], ["has", 0, 1], ["has", 1, 1], ["has", 2, 1], ["has", 0, 2],
+            ["coinc", 0, 1], ["coinc", 1, 2], ["coinc", 0, 2]]
+
+
+def gen_fn(rng, styles=FN_PLAIN + FN_WRAPPED, like=None) -> dict:
+    """a function post-selection; `like`: (mostly) the style and pred of an earlier one with OTHER captured values - the
+    pair that differs in nothing but what the functions captured"""
+    if isinstance(like, dict) and rng.random() < 0.75:
+        style, pred = like["fn"][0], like["fn"][1]
+        if style not in styles:
+            style = rng.choice(styles)
+        other = [x for x in FN_PREDS if x[0] == pred and x != like["fn"][1:]]
+        return {"fn": [style, *rng.choice(other)]}
+    return {"fn": [rng.choice(styles), *rng.choice(FN_PREDS)]}
+
+
+def is_fn(r) -> bool:
+    return isinstance(r, dict)
+
+
 def mk_ps(r):
     if r is None:
         return None
+    if is_fn(r):
+        return mk_fn(r["fn"])
     ps = lw.PostSelection()
     ps.add(tuple(r[0]), tuple(r[1]))
     return ps
 
 
 def norm_dist(d):
-    return sorted((tuple(k.s), round(float(v), 12)) for k, v in d.items())
+    return sorted((tuple(k.s), float(v)) for k, v in d.items())
+
+
+# the long-lived and the fresh object run the same computation on the same numbers: their results agree to rounding
+# (REL_TOL relative on every entry, so that a probability of 2e-9 next to an interference dip that should have become
+# 3e-9 is a difference; measured on the unchanged library: they are bit-identical)
+REL_TOL = 1e-12
+
+
+def close(p, q) -> bool:
+    return abs(p - q) <= REL_TOL * max(abs(p), abs(q)) + 1e-15 or (p != p and q != q)
+
+
+def same_val(x, y) -> bool:
+    """numbers to rounding (REL_TOL), everything else (states, counts, exception classes) exactly"""
+    if isinstance(x, float) and isinstance(y, float):
+        return close(x, y)
+    if isinstance(x, dict) and isinstance(y, dict):
+        return x.keys() == y.keys() and all(same_val(x[k], y[k]) for k in x)
+    if isinstance(x, (list, tuple)) and isinstance(y, (list, tuple)):
+        return len(x) == len(y) and all(same_val(p, q) for p, q in zip(x, y))
+    return x == y
 
 
 def observe(fn):
@@ -321,17 +649,18 @@ def observe(fn):
         return ("raise", exc_class(e))
 
 
+def _refused_before_read(a, w) -> bool:
+    """the call raised before it asked for the distribution at all (an argument was refused, e.g. a post_select callable that
+    is no function): not a read of the cache"""
+    return a[0] == "raise" and w.gets == 0 and not w.recomputed
+
+
 def same_obs(a, b) -> bool:
     if a[0] != b[0]:
         return False
     if a[0] == "raise":
         return a[1] == b[1]
-    x, y = a[1], b[1]
-    if isinstance(x, list) and x and isinstance(x[0], tuple) and isinstance(x[0][1], float):
-        if [k for k, _ in x] != [k for k, _ in y]:
-            return False
-        return all(abs(p - q) <= 1e-9 for (_, p), (_, q) in zip(x, y))
-    return x == y
+    return same_val(a[1], b[1])
 
 
 # ------------------------------------------------------------------------------------------------
@@ -439,7 +768,7 @@ def _intended(kind: str, *, src=None, thr=0, det=None, backend=None, pnr=None, r
 
 
 def _intended_single(kind: str, cur: dict) -> dict:
-    rules = [] if cur["ps"] is None else [cur["ps"], *cur["ps_extra"]]
+    rules = [] if cur["ps"] is None or is_fn(cur["ps"]) else [cur["ps"], *cur["ps_extra"]]
     return _intended(kind, src=cur["source"], thr=cur["thr"], det=cur["det"], backend=cur["backend"], pnr=cur["pnr"],
                      rules=rules, inp=cur["input"])
 
@@ -483,7 +812,9 @@ def _run_history(ctx: Ctx, kind: str, steps: list, tr: Tracker, count: bool) -> 
            "ps_extra": [], "thr": 0, "det": [1, 0, True]}
 
     def fresh_ps():
-        ps = mk_ps(cur["ps"])
+        ps = mk_ps(cur["ps"])  # (a function: a NEW function object made in the same way from the same values)
+        if is_fn(cur["ps"]):
+            return ps
         for x in cur["ps_extra"]:
             ps.add(tuple(x[0]), tuple(x[1]))
         return ps
@@ -503,6 +834,7 @@ def _run_history(ctx: Ctx, kind: str, steps: list, tr: Tracker, count: bool) -> 
     # runs on the DEFAULT components that the library makes for it
     form = next((s[1] for s in steps if s[0] == "ctor"), "kw")
     decoys: list = []
+    last_fn: list = [None]   # the function object that was assigned to post_select last
     try:
         obj = fresh() if form == "kw" else _default_object(kind, fam[cur["circuit"]], cur["input"], form)
     except Exception:  # noqa: BLE001
@@ -535,6 +867,10 @@ def _run_history(ctx: Ctx, kind: str, steps: list, tr: Tracker, count: bool) -> 
             elif op == "circuit":
                 obj.circuit = fam[st[1]]
                 cur["circuit"] = st[1]
+            elif op == "circuit_near":
+                # a NEW circuit object that differs from its sibling in one value by st[2] (1e-3 ... 1e-12, or 0)
+                obj.circuit = fam[near_name(st[1], st[2])]
+                cur["circuit"] = near_name(st[1], st[2])
             elif op == "circuit_same":
                 obj.circuit = fam[cur["circuit"]]
             elif op == "circuit_copy":
@@ -548,6 +884,11 @@ def _run_history(ctx: Ctx, kind: str, steps: list, tr: Tracker, count: bool) -> 
                 edit_circuit(c, st[1], st[2])
             elif op == "param":
                 p.set(st[1])
+            elif op == "param_step":
+                # a SMALL step of one of the Parameters (p: generic reflectivity, q: reflectivity next to the HOM dip,
+                # r: phase next to the dark port), as an optimiser / calibration loop takes them
+                par = fam.params[st[1]]
+                par.set(par.get() + st[2])
             elif op == "param_same":
                 p.set(p.get())
             elif op == "input":
@@ -576,6 +917,26 @@ def _run_history(ctx: Ctx, kind: str, steps: list, tr: Tracker, count: bool) -> 
                 if kind == "sampler":
                     obj.source.probability_threshold = st[1]
                     cur["thr"] = st[1]
+            elif op == "source_nudge":
+                # ONE value of the source moved IN PLACE by a small amount (st[1]: 0-2 brightness / purity /
+                # indistinguishability towards 0, 3: the probability threshold upwards)
+                if kind == "sampler":
+                    if st[1] == 3:
+                        cur["thr"] = cur["thr"] + abs(st[2])
+                        obj.source.probability_threshold = cur["thr"]
+                    else:
+                        v = cur["source"][st[1]] - abs(st[2])
+                        setattr(obj.source, ["brightness", "purity", "indistinguishability"][st[1]], v)
+                        cur["source"] = [v if i == st[1] else x for i, x in enumerate(cur["source"])]
+            elif op == "detector_nudge":
+                # efficiency moved down / dark-count probability moved up by a small amount, in place
+                if kind == "sampler":
+                    e, pd, pc = cur["det"]
+                    cur["det"] = [e - abs(st[2]), pd, pc] if st[1] == 0 else [e, pd + abs(st[2]), pc]
+                    if st[1] == 0:
+                        obj.detector.efficiency = cur["det"][0]
+                    else:
+                        obj.detector.p_dark = cur["det"][1]
             elif op == "source_same":
                 if kind == "sampler":
                     b, pu, ind = cur["source"]
@@ -594,6 +955,22 @@ def _run_history(ctx: Ctx, kind: str, steps: list, tr: Tracker, count: bool) -> 
             elif op == "post_select":
                 obj.post_select = mk_ps(st[1])
                 cur["ps"], cur["ps_extra"] = st[1], []
+            elif op == "post_select_fn":
+                # post-selection given as a function (or another callable: the setter may refuse it, then nothing changes)
+                if kind == "quick":
+                    f = mk_fn(st[1]["fn"])
+                    try:
+                        obj.post_select = f
+                    except TypeError:
+                        if st[1]["fn"][0] not in FN_OBJECTS:
+                            raise
+                        ctx.count("fn:callable_that_is_no_function_refused:" + st[1]["fn"][0])
+                    else:
+                        cur["ps"], cur["ps_extra"], last_fn[0] = st[1], [], f
+            elif op == "ps_fn_same":
+                # the SAME function object assigned again: no change
+                if kind == "quick" and is_fn(cur["ps"]) and last_fn[0] is not None:
+                    obj.post_select = last_fn[0]
             elif op == "ps_same_object":
                 if kind == "quick":
                     obj.post_select = obj.post_select
@@ -601,7 +978,7 @@ def _run_history(ctx: Ctx, kind: str, steps: list, tr: Tracker, count: bool) -> 
                 if kind == "quick":
                     obj.post_select = fresh_ps()
             elif op == "ps_add":
-                if kind == "quick" and cur["ps"] is not None and st[1] not in [cur["ps"], *cur["ps_extra"]]:
+                if kind == "quick" and cur["ps"] is not None and not is_fn(cur["ps"]) and st[1] not in [cur["ps"], *cur["ps_extra"]]:
                     try:
                         obj.post_select.add(tuple(st[1][0]), tuple(st[1][1]))
                     except ValueError:  # (one rule per mode: refused, the object stays as it is)
@@ -622,12 +999,13 @@ def _run_history(ctx: Ctx, kind: str, steps: list, tr: Tracker, count: bool) -> 
                     def act(o):
                         pyrandom.seed(st[1])
                         return tuple(o.sample().s)
-                elif op == "sample_N_outputs":
-                    def act(o):
-                        return sorted((tuple(s.s), n) for s, n in o.sample_N_outputs(st[1], seed=st[2]).items())
                 else:
+                    # (a Sampler takes the post-selection of a sampling call as an ARGUMENT: st[3], rules or a function;
+                    # each call is given an object of its own)
                     def act(o):
-                        return sorted((tuple(s.s), n) for s, n in o.sample_N_inputs(st[1], seed=st[2]).items())
+                        kw = {"post_select": mk_ps(st[3])} if kind == "sampler" and len(st) > 3 and st[3] is not None else {}
+                        f = o.sample_N_outputs if op == "sample_N_outputs" else o.sample_N_inputs
+                        return sorted((tuple(s.s), n) for s, n in f(st[1], seed=st[2], **kw).items())
                 bad = _reported_vs_intended(kind, obj, _intended_single(kind, cur))
                 note = ""
                 if bad:
@@ -636,7 +1014,10 @@ def _run_history(ctx: Ctx, kind: str, steps: list, tr: Tracker, count: bool) -> 
                 cfg = tr.snapshot(obj)
                 with SEAMS.window() as w:
                     a = observe(lambda: act(obj))
-                tr.observed(k, obj, cfg, w)
+                if _refused_before_read(a, w):
+                    ctx.count("corr:call_refused_before_the_distribution_was_read")
+                else:
+                    tr.observed(k, obj, cfg, w)
                 try:
                     fobj = fresh()
                 except Exception as e:  # noqa: BLE001
@@ -696,6 +1077,13 @@ def field_corpus(kind: str) -> list:
             ("source.indistinguishability", [], [["source_one", 2, 0.7]]),
             ("source.probability_threshold", [["source_one", 0, 0.8]], [["source_thr", 0.5]]),
             ("source.probability_threshold(all removed)", [["input", [1, 1, 0]], ["source_one", 0, 0.8]], [["source_thr", 0.9]]),
+            # the same fields changed by a SMALL amount (the snapshot is compared exactly)
+            ("source.brightness(by 1e-7)", [["input", [1, 1, 0]]], [["source_nudge", 0, 1e-7]]),
+            ("source.purity(by 1e-9)", [["input", [1, 1, 0]]], [["source_nudge", 1, 1e-9]]),
+            ("source.indistinguishability(by 1e-12)", [["input", [1, 1, 0]]], [["source_nudge", 2, 1e-12]]),
+            ("source.indistinguishability(by 1e-7)", [["input", [1, 1, 0]], ["source_one", 2, 0.7]], [["source_nudge", 2, 1e-7]]),
+            ("source.probability_threshold(by 1e-12)", [["source_one", 0, 0.8]], [["source_nudge", 3, 1e-12]]),
+            *_small_circuit_changes(),
         ]
     else:
         same += [["ps_same_object"], ["pnr_same"]]
@@ -712,7 +1100,18 @@ def field_corpus(kind: str) -> list:
             ("post_select.rules", [["post_select", [[0], [1]]]], [["ps_add", [[2], [0]]]]),
             ("post_select.rules(all removed)", [["post_select", [[0], [1]]]], [["ps_add", [[1], [3]]]]),
             ("photon_counting", [["input", [1, 1, 0]]], [["pnr", False]]),
+            *_small_circuit_changes(),
+            # functions that differ in nothing but the values they captured, in every way of making them
+            *[(f"post_select(function:{style}, other captured value)", [["input", [1, 1, 0]], ["post_select_fn", {"fn": [style, pred, a, b]}]],
+               [["post_select_fn", {"fn": [style, pred, a2, b2]}]])
+              for i, style in enumerate(FN_PLAIN + FN_WRAPPED)
+              for pred, a, b, a2, b2 in [[("has", 0, 0, 1, 0), ("has", 1, 1, 1, 0), ("coinc", 0, 1, 1, 2)][i % 3]]],
+            ("post_select(function -> rules)", [["post_select_fn", {"fn": ["factory", "has", 1, 0]}]], [["post_select", [[1], [0]]]]),
+            ("post_select(callable that is no function)", [["post_select_fn", {"fn": ["loop", "has", 1, 0]}]],
+             [["post_select_fn", {"fn": ["partial", "has", 0, 0]}], ["post_select_fn", {"fn": ["method", "has", 0, 0]}],
+              ["post_select_fn", {"fn": ["callable", "has", 0, 0]}]]),
         ]
+        same += [["ps_fn_same"], ["ps_equal_new"]]
     out = []
     for i, (label, pre, change) in enumerate(changes):
         s1, s2 = same[i % len(same)], same[(i + 3) % len(same)]
@@ -722,6 +1121,22 @@ def field_corpus(kind: str) -> list:
     # the input no longer fits, the read raises and stores nothing; the old circuit comes back: nothing to recompute
     out.append(("n_modes(read raises)", [["input", [1, 1, 0]], ["circuit", "lossy"], rd, ["circuit", "lossy_dil"], rd, rd,
                                          ["circuit", "lossy"], rd, ["circuit", "lossy_dil"], ["input", [1, 1, 0, 0, 0]], rd, rd]))
+    return out
+
+
+def _small_circuit_changes() -> list:
+    """(label, pre, change): U_full changes by a SMALL amount - Parameter steps of a generic circuit and of circuits next
+    to an interference dip, a circuit assigned that differs from the last one in one value"""
+    out = []
+    for d in (1e-6, -1e-9, 1e-12):
+        out.append((f"U_full(Parameter step {d})", [["input", [1, 1, 0]]], [["param_step", "p", d]]))
+        out.append((f"U_full(assigned circuit differs by {d})", [["input", [1, 1, 0]], ["circuit_near", "generic", 0.0]],
+                    [["circuit_near", "generic", d]]))
+    for d in (4e-6, -1e-7, 1e-9):
+        out.append((f"U_full(HOM dip, Parameter step {d})", [["input", [1, 1, 0]], ["circuit", "dip_hom"]], [["param_step", "q", d]]))
+        out.append((f"U_full(dark port, Parameter step {d})", [["circuit", "dip_mzi"]], [["param_step", "r", d]]))
+    out.append(("U_full(HOM dip, assigned circuit differs by 4e-6)", [["input", [1, 1, 0]], ["circuit_near", "hom", 0.0]], [["circuit_near", "hom", 4e-6]]))
+    out.append(("U_full(loss value differs by 1e-9)", [["input", [1, 1, 0]], ["circuit_near", "lossy", 0.0]], [["circuit_near", "lossy", 1e-9]]))
     return out
 
 
@@ -765,7 +1180,8 @@ def analyzer_probe(ctx: Ctx, rng) -> None:
 
 def analyzer_histories(ctx: Ctx, rng) -> None:
     """a long-lived Analyzer under circuit / post-selection reassignment vs a fresh Analyzer per call"""
-    names = ["idleherald0", "idleherald1", "plain", "lossy", "heralded_sub", "herald_out0", "herald_out2", "herald_in0", "lossy1"]
+    names = ["idleherald0", "idleherald1", "plain", "lossy", "heralded_sub", "herald_out0", "herald_out2", "herald_in0", "lossy1",
+             "dip_hom", "dip_mzi", near_name("lossy", 0.0), near_name("lossy", 1e-6), near_name("hom", 0.0), near_name("hom", 4e-6)]
     rulesets = [None, [[0], [0, 1]], [[1], [1]], [[0, 1], [1, 2]]]
     for _ in range(ctx.n(25, 400)):
         if ctx.out_of_time():
@@ -777,6 +1193,8 @@ def analyzer_histories(ctx: Ctx, rng) -> None:
         psobjs = {}
 
         def ps_for(r):
+            if is_fn(r):   # (a function: every assignment gets a function object of its own)
+                return mk_ps(r)
             key = json.dumps(r)
             if key not in psobjs:
                 psobjs[key] = mk_ps(r)
@@ -791,12 +1209,21 @@ def analyzer_histories(ctx: Ctx, rng) -> None:
                 an.circuit = fam[cur["circuit"]]
                 hist.append(["circuit", cur["circuit"]])
             elif r < 0.6:
-                cur["ps"] = rng.choice(rulesets)
+                # rules, or a function that (mostly) differs from the last one in the captured values only
+                cur["ps"] = rng.choice(rulesets) if rng.random() < 0.6 else gen_fn(rng, like=cur["ps"])
                 an.post_selection = ps_for(cur["ps"])
                 hist.append(["post_selection", cur["ps"]])
+                ctx.count("analyzer:post_selection:" + ("function" if is_fn(cur["ps"]) else "rules"))
             elif r < 0.68:
-                p.set(rng.choice([0.1, 0.5, 0.9]))
-                hist.append(["param"])
+                if rng.random() < 0.5:
+                    which, d = rng.choice(["p", "q", "r"]), _small(rng)
+                    fam.params[which].set(fam.params[which].get() + d)
+                    hist.append(["param_step", which, d])
+                    ctx.count("analyzer:small:param_step")
+                else:
+                    v = rng.choice([0.1, 0.5, 0.9])
+                    p.set(v)
+                    hist.append(["param", v])
             elif r < 0.78:
                 what, m = rng.choice(EDITS), rng.randrange(2)
                 edit_circuit(fam[cur["circuit"]], what, m)
@@ -809,18 +1236,18 @@ def analyzer_histories(ctx: Ctx, rng) -> None:
                 states = [lw.State(s) for s in ins]
                 exp = {st: st for st in states} if withexp else None
                 res = a.analyze(states, exp)
-                out = {"outputs": [o.s for o in res.outputs], "array": np.round(np.array(res.array, dtype=float), 10).tolist(),
-                       "performance": round(float(res.performance), 10), "has_error_rate": hasattr(res, "error_rate")}
+                out = {"outputs": [o.s for o in res.outputs], "array": np.array(res.array, dtype=float).tolist(),
+                       "performance": float(res.performance), "has_error_rate": hasattr(res, "error_rate")}
                 if withexp:
                     er = float(res.error_rate)
-                    out["error_rate"] = None if np.isnan(er) else round(er, 9)
+                    out["error_rate"] = None if np.isnan(er) else er
                 return out
 
             fresh = emulator.Analyzer(fam[cur["circuit"]])
             if cur["ps"] is not None:
                 fresh.post_selection = ps_for(cur["ps"])
             a, b = observe(lambda: do(an)), observe(lambda: do(fresh))
-            if a != b and not (a[0] == "ok" and b[0] == "ok" and a[1] == b[1]):
+            if not same_obs(a, b):
                 bad = (k, a, b)
                 break
         ctx.case(("analyzer", json.dumps(hist)), len([h for h in hist if h[0] == "analyze"]) >= 2)
@@ -918,16 +1345,21 @@ def _run_shared(ctx: Ctx, steps: list, tk: dict) -> list[str]:
     gates: dict = {}
 
     def ps_for(r):
+        # (a function {"fn": spec, "k": i}: ONE function object per (spec, k), shared by everybody who is given it; another
+        # k = another function object made in the same way from the same values)
         key = json.dumps(r)
         if key not in psobjs:
             psobjs[key] = mk_ps(r)
-            psrules[key] = [r]
+            psrules[key] = [] if is_fn(r) else [r]
         return psobjs[key]
 
     def fresh_ps(r):
-        """a new PostSelection object holding the rules that the shared one made from `r` holds now"""
+        """a new PostSelection object holding the rules that the shared one made from `r` holds now (a function: a new
+        function object made in the same way from the same values)"""
         if r is None:
             return None
+        if is_fn(r):
+            return mk_fn(r["fn"])
         ps = lw.PostSelection()
         for x in psrules.get(json.dumps(r), [r]):
             ps.add(tuple(x[0]), tuple(x[1]))
@@ -974,7 +1406,8 @@ def _run_shared(ctx: Ctx, steps: list, tk: dict) -> list[str]:
         cur = o["cur"]
         if o["kind"] == "sampler":
             return _intended("sampler", src=eff(o, "s"), thr=0, det=eff(o, "d"), backend=eff(o, "b"), inp=cur["input"])
-        rules = cur.get("own_rules", []) if cur["ps"] is None else psrules.get(json.dumps(cur["ps"]), [cur["ps"]])
+        rules = (cur.get("own_rules", []) if cur["ps"] is None else [] if is_fn(cur["ps"]) else
+                 psrules.get(json.dumps(cur["ps"]), [cur["ps"]]))
         return _intended(o["kind"], pnr=cur.get("pnr"), rules=rules, inp=cur.get("input"))
 
     def unassigned_change(k, st) -> list[str]:
@@ -1033,8 +1466,11 @@ def _run_shared(ctx: Ctx, steps: list, tk: dict) -> list[str]:
             if op == "param":
                 p.set(st[1])
                 continue
+            if op == "param_step":
+                fam.params[st[1]].set(fam.params[st[1]].get() + st[2])
+                continue
             if op == "mutate_ps":
-                if st[1] is not None and st[2] is not None and st[2] not in psrules.get(json.dumps(st[1]), [st[1]]):
+                if st[1] is not None and st[2] is not None and not is_fn(st[1]) and st[2] not in psrules.get(json.dumps(st[1]), [st[1]]):
                     try:
                         ps_for(st[1]).add(tuple(st[2][0]), tuple(st[2][1]))
                     except ValueError:  # (a mode may carry one rule only: the object refuses and stays as it is)
@@ -1164,12 +1600,11 @@ def _run_shared(ctx: Ctx, steps: list, tk: dict) -> list[str]:
                     states = [lw.State(x) for x in ins]
                     exp = {x: x for x in states} if withexp else None
                     res = a.analyze(states, exp)
-                    out = {"outputs": [x.s for x in res.outputs],
-                           "array": np.round(np.array(res.array, dtype=float), 10).tolist(),
-                           "performance": round(float(res.performance), 10), "has_error_rate": hasattr(res, "error_rate")}
+                    out = {"outputs": [x.s for x in res.outputs], "array": np.array(res.array, dtype=float).tolist(),
+                           "performance": float(res.performance), "has_error_rate": hasattr(res, "error_rate")}
                     if withexp:
                         er = float(res.error_rate)
-                        out["error_rate"] = None if np.isnan(er) else round(er, 9)
+                        out["error_rate"] = None if np.isnan(er) else er
                     return out
 
                 a, fo = observe(lambda: do(obj)), observe(lambda: do(fresh(o)))
@@ -1204,7 +1639,9 @@ def _run_shared(ctx: Ctx, steps: list, tk: dict) -> list[str]:
                     ready = tk["w"].prepare(quick)
                 with SEAMS.window() as w:
                     a = observe(lambda: act(obj, True))
-                if kind == "sampler":
+                if _refused_before_read(a, w):
+                    ctx.count("corr:call_refused_before_the_distribution_was_read")
+                elif kind == "sampler":
                     tr.observed(k, obj, cfg, w)
                 elif ready:
                     tk["w"].observed(k, st[1], quick, w)
@@ -1328,6 +1765,40 @@ def _shared_corpus() -> list:
     for a, b in (("plain", "lossy1"), ("lossy1", "lossy"), ("lossy", "plain"), ("lossy1", "swap")):
         out.append([["new", "Q1", "quick", a, [1, 1, 0], {"pnr": True, "ps": None}], ["new", "S1", "sampler", a, [1, 1, 0], smp("B0")], rd("Q1"), rd("S1"),
                     ["set", "Q1", "circuit", b], ["set", "S1", "circuit", b], ["obs", "Q1", "sample", 9], rd("Q1"), rd("S1")])
+    # THE SIZE OF A CHANGE: a Sampler, a second Sampler and a QuickSampler on one circuit next to an interference dip (and on
+    # a generic one) share the Parameter, the Source and the Detector; the Parameter takes a small step, the shared Source /
+    # Detector is moved by a little in place, a circuit that differs in one value by a little is assigned - everybody follows
+    coinc = {"fn": ["factory", "coinc", 0, 1]}
+    for cname, which, base, d1, d2 in (("dip_hom", "q", [1, 1, 0], 4e-6, -1e-9), ("dip_mzi", "r", [1, 0, 0], 4e-6, 1e-7),
+                                       ("dip_mzi", "r", [1, 1, 0], -1e-6, 1e-12), ("plain", "p", [1, 1, 0], 1e-6, 1e-9),
+                                       ("lossy", "p", [1, 1, 0], -1e-7, 1e-12)):
+        out.append([["new", "S1", "sampler", cname, base, smp("B0", "SRC0", "D0")], ["new", "S2", "sampler", cname, base, smp("B1", "SRC0", "D0")],
+                    ["new", "Q1", "quick", cname, base, {"pnr": True, "ps": None}], rd("S1"), rd("S2"), rd("Q1"), ["param_step", which, d1],
+                    rd("S2"), rd("Q1"), ["obs", "S1", "sample_N_outputs", 2000, 3, coinc], rd("S1"), ["mutate", "SRC0", [1 - 1e-7, 1, 1]],
+                    rd("S1"), ["obs", "S2", "sample_N_outputs", 2000, 3, coinc], ["param_step", which, d2], ["obs", "Q1", "sample_N_outputs", 2000, 4, None],
+                    rd("Q1"), rd("S2"), ["mutate", "D0", [1 - 1e-9, 0, True]], ["obs", "S1", "sample_N_inputs", 200, 5, None],
+                    ["mutate_own", "S2", "source", [1 - 1e-7, 1 - 1e-9, 1]], rd("S1"), rd("S2")])
+    for base_c, inp, d in (("hom", [1, 1, 0], 4e-6), ("mzi", [1, 0, 0], -1e-6), ("generic", [1, 1, 0], 1e-9), ("lossy", [1, 1, 0], 1e-12)):
+        a, b = near_name(base_c, 0.0), near_name(base_c, d)
+        out.append([["new", "S1", "sampler", a, inp, smp("B0")], ["new", "Q1", "quick", a, inp, {"pnr": True, "ps": None}],
+                    ["new", "A1", "analyzer", a, inp, {"ps": None}], rd("S1"), rd("Q1"), ["obs", "A1", "analyze", [inp], False],
+                    ["set", "S1", "circuit", b], ["set", "Q1", "circuit", b], ["set", "A1", "circuit", b], rd("S1"), ["obs", "Q1", "sample_N_outputs", 2000, 1, None],
+                    rd("Q1"), ["obs", "A1", "analyze", [inp], True], ["obs", "S1", "sample_N_outputs", 2000, 1, coinc],
+                    ["set", "S1", "circuit", a], rd("S1")])
+    # POST-SELECTION GIVEN AS FUNCTIONS that look alike: ONE function object F given to two QuickSamplers, an Analyzer and a
+    # Sampler's calls; G differs from F in the captured value only; F' is another object with F's values; F assigned again
+    for i, style in enumerate(FN_PLAIN + FN_WRAPPED):
+        pred, a, b, a2, b2 = [("has", 0, 0, 1, 0), ("has", 1, 1, 1, 0), ("coinc", 0, 1, 1, 2)][i % 3]
+        f, g, f2 = {"fn": [style, pred, a, b]}, {"fn": [style, pred, a2, b2]}, {"fn": [style, pred, a, b], "k": 1}
+        cname = ["plain", "lossy", "herald_out0"][i % 3]
+        out.append([["new", "Q1", "quick", cname, [1, 1, 0], {"pnr": True, "ps": f}], ["new", "Q2", "quick", cname, [1, 1, 0], {"pnr": True, "ps": f}],
+                    ["new", "A1", "analyzer", cname, [1, 1, 0], {"ps": f}], ["new", "S1", "sampler", cname, [1, 1, 0], smp("B0")],
+                    rd("Q1"), rd("Q2"), ["obs", "A1", "analyze", [[1, 1, 0]], False], ["obs", "S1", "sample_N_outputs", 50, 7, f],
+                    ["set", "Q1", "post_select", g], rd("Q1"), rd("Q2"), ["obs", "Q1", "sample", 3], ["obs", "S1", "sample_N_outputs", 50, 7, g],
+                    ["obs", "S1", "sample_N_inputs", 50, 7, g], ["obs", "S1", "sample_N_inputs", 50, 7, f],
+                    ["set", "A1", "post_select", g], ["obs", "A1", "analyze", [[1, 1, 0]], True], ["set", "Q2", "post_select", f2], rd("Q2"),
+                    ["set", "Q1", "post_select", f], rd("Q1"), ["obs", "Q1", "sample_N_outputs", 50, 2, None], ["set", "Q2", "post_select", g],
+                    ["obs", "Q2", "sample_N_outputs", 50, 2, None], ["set", "A1", "post_select", f2], ["obs", "A1", "analyze", [[1, 1, 0]], False]])
     for cname in ("plain", "lossy", "herald_out0"):
         out.append([["new", "S1", "sampler", cname, [1, 0, 1], smp("B1")], ["new", "Q1", "quick", cname, [1, 0, 1], {"pnr": True, "ps": None}],
                     ["new", "A1", "analyzer", cname, [1, 0, 1], {"ps": None}], rd("S1"), ["obs", "Q1", "sample", 2],
@@ -1339,14 +1810,51 @@ def _shared_corpus() -> list:
 SHARED_CORPUS = _shared_corpus()
 
 
+def _nudged(rng, v: list) -> list:
+    """source values [brightness, purity, indistinguishability] / detector values [efficiency, p_dark, photon_counting] with
+    ONE of them moved by a small amount (1e-3 ... 1e-12)"""
+    v, d = list(v), abs(_small(rng))
+    if isinstance(v[2], bool):
+        i = rng.randrange(2)
+        v[i] = v[i] - d if i == 0 else v[i] + d
+    else:
+        i = rng.randrange(3)
+        v[i] = v[i] - d
+    return v
+
+
+def _sh_ps(ctx: Ctx, rng, steps: list, p_fn: float = 0.3):
+    """a post-selection for the shared histories: rules / None, or (p_fn) a FUNCTION - mostly one that differs from the
+    last function of the history in the captured values only, or (k) another function object with the SAME values"""
+    if rng.random() >= p_fn:
+        return rng.choice(SH_RULES)
+    last = next((x for st in reversed(steps) for x in (st[5]["ps"] if st[0] == "new" and "ps" in st[5] else st[3] if st[0] == "set" else
+                                                        st[5] if st[0] == "obs" and len(st) > 5 else None,) if is_fn(x)), None)
+    if last and rng.random() < 0.2:
+        ctx.count("shared:fn:same_values_other_function_object")
+        return {"fn": last["fn"], "k": last.get("k", 0) + 1}
+    if last and rng.random() < 0.15:
+        ctx.count("shared:fn:same_function_object_again")
+        return last
+    ctx.count("shared:fn:function")
+    return gen_fn(rng, like=last)
+
+
 def gen_shared(ctx: Ctx, rng) -> list:
     steps: list = []
     objs: dict = {}
     n_of = {"sampler": 0, "quick": 0, "analyzer": 0}
     # circuits are drawn from a small subset so that holders meet on the same / related circuit objects
     group = rng.choice([["lossy", "lossy_dil", "plain"], ["idleherald0", "idleherald1", "plain"], ["plain", "lossy1", "lossy"],
-                        ["herald_out0", "herald_out2", "herald_in0"], ["lossy", "lossy_dil", "heralded_sub", "swap"], SH_CIRCUITS])
-    base0 = rng.choice(SH_INPUTS[:4])
+                        ["herald_out0", "herald_out2", "herald_in0"], ["lossy", "lossy_dil", "heralded_sub", "swap"], SH_CIRCUITS,
+                        # circuits next to an interference dip / circuits that differ from each other in ONE value by a little
+                        ["dip_hom", "dip_mzi", "plain"], ["dip_hom", near_name("hom", 0.0), near_name("hom", _small(rng))],
+                        [near_name("generic", 0.0), near_name("generic", _small(rng)), near_name("generic", _small(rng))],
+                        ["dip_mzi", near_name("mzi", 0.0), near_name("mzi", _small(rng)), near_name("lossy", 0.0), near_name("lossy", _small(rng))]])
+    small_world = group[0].startswith(("dip", "near")) or rng.random() < 0.25   # (small steps / nudges are frequent)
+    if group[0].startswith(("dip", "near")):
+        ctx.count("shared:small:world_of_circuits_near_a_dip_or_near_each_other")
+    base0 = rng.choice(SH_INPUTS[:4] if not group[0].startswith("dip") else [[1, 1, 0], [1, 1, 0], [1, 0, 0]])
 
     def new(kind: str) -> str:
         n_of[kind] += 1
@@ -1355,9 +1863,9 @@ def gen_shared(ctx: Ctx, rng) -> list:
             cfg = {"b": rng.choice([*SH_BREFS, "own"]), "s": rng.choice(["SRC0", "SRC0", "SRC1", "own", "own"]),
                    "d": rng.choice(["D0", "D0", "D1", "own", "own"])}
         elif kind == "quick":
-            cfg = {"pnr": rng.random() < 0.6, "ps": rng.choice(SH_RULES)}
+            cfg = {"pnr": rng.random() < 0.6, "ps": _sh_ps(ctx, rng, steps)}
         else:
-            cfg = {"ps": rng.choice(SH_RULES)}
+            cfg = {"ps": _sh_ps(ctx, rng, steps)}
         if rng.random() < 0.5:
             cfg["form"] = rng.choice(FORMS)
         ctx.count(f"shared:new:form:{cfg.get('form', 'kw')}")
@@ -1378,9 +1886,11 @@ def gen_shared(ctx: Ctx, rng) -> list:
         elif r < 0.65:
             steps.append(["obs", name, "sample", rng.randrange(1000)])
         elif r < 0.85 or kind != "sampler":
-            steps.append(["obs", name, "sample_N_outputs", rng.choice([5, 20]), rng.randrange(1000), rng.choice(SH_RULES)])
+            steps.append(["obs", name, "sample_N_outputs", rng.choice([5, 20, 500] if small_world else [5, 20]), rng.randrange(1000),
+                          _sh_ps(ctx, rng, steps)])
         else:
-            steps.append(["obs", name, "sample_N_inputs", rng.choice([5, 20]), rng.randrange(1000), rng.choice(SH_RULES)])
+            steps.append(["obs", name, "sample_N_inputs", rng.choice([5, 20, 200] if small_world else [5, 20]), rng.randrange(1000),
+                          _sh_ps(ctx, rng, steps)])
 
     new("sampler")
     new(rng.choice(["sampler", "sampler", "quick", "analyzer"]))
@@ -1399,12 +1909,20 @@ def gen_shared(ctx: Ctx, rng) -> list:
         elif r < 0.4 and kind != "analyzer":
             steps.append(["set", name, "input", rng.choice(SH_INPUTS)])
         elif r < 0.5:
-            ref = rng.choice(["B0", "B1", "SRC0", "SRC0", "SRC1", "D0", "D0", "D1"])
+            ref = rng.choice(["B0", "B1", "SRC0", "SRC0", "SRC1", "D0", "D0", "D1"] if not small_world else ["SRC0", "SRC0", "SRC1", "D0", "B0"])
             v = rng.choice(["permanent", "slos"]) if ref[0] == "B" else rng.choice(SH_SRC) if ref[0] == "S" else rng.choice(SH_DET)
+            if ref[0] != "B" and rng.random() < (0.7 if small_world else 0.2):
+                # the values that the component has now (as far as this generator knows), one of them moved by a little
+                now = next((st[2] for st in reversed(steps) if st[0] == "mutate" and st[1] == ref), SH_INIT[ref])
+                v = _nudged(rng, now if rng.random() < 0.7 else v)
+                ctx.count("shared:small:shared_component_nudged_in_place")
             steps.append(["mutate", ref, v])
         elif r < 0.6 and kind == "sampler":
             what = rng.choice(["backend", "source", "source", "detector"])
             v = rng.choice(["permanent", "slos"]) if what == "backend" else rng.choice(SH_SRC) if what == "source" else rng.choice(SH_DET)
+            if what != "backend" and rng.random() < (0.7 if small_world else 0.2):
+                v = _nudged(rng, v)
+                ctx.count("shared:small:component_nudged_through_a_holder")
             steps.append(["mutate_own", name, what, v])
         elif r < 0.6:
             steps.append(["mutate_own", name, "ps_add", rng.choice(SH_RULES[1:])])
@@ -1414,12 +1932,16 @@ def gen_shared(ctx: Ctx, rng) -> list:
                  rng.choice(["SRC0", "SRC1", rng.choice(SH_SRC), None]) if attr == "source" else rng.choice(["D0", "D1", rng.choice(SH_DET), None]))
             steps.append(["set", name, attr, v])
         elif r < 0.72 and kind == "quick":
-            steps.append(["set", name, rng.choice(["post_select", "pnr"]), None])
-            steps[-1][3] = rng.choice(SH_RULES) if steps[-1][2] == "post_select" else rng.random() < 0.5
+            steps.append(["set", name, rng.choice(["post_select", "post_select", "pnr"]), None])
+            steps[-1][3] = _sh_ps(ctx, rng, steps[:-1], 0.5) if steps[-1][2] == "post_select" else rng.random() < 0.5
         elif r < 0.72:
-            steps.append(["set", name, "post_select", rng.choice(SH_RULES)])
+            steps.append(["set", name, "post_select", _sh_ps(ctx, rng, steps, 0.5)])
         elif r < 0.78:
-            steps.append(["param", rng.choice([0.1, 0.5, 0.9])])
+            if rng.random() < (0.8 if small_world else 0.25):
+                steps.append(["param_step", rng.choice(["q", "r"] if group[0].startswith("dip") else ["p", "p", "q", "r"]), _small(rng)])
+                ctx.count("shared:small:param_step")
+            else:
+                steps.append(["param", rng.choice([0.1, 0.5, 0.9])])
         elif r < 0.86:
             steps.append(["mutate_circuit", rng.choice(group), rng.choice(EDITS), rng.randrange(2)])
         elif r < 0.93:
@@ -1470,6 +1992,9 @@ def gen_defaults(ctx: Ctx, rng) -> list:
             return
         what = rng.choice(["source", "source", "source", "detector", "detector", "backend"])
         v = rng.choice(SH_SRC[1:]) if what == "source" else rng.choice(SH_DET[1:]) if what == "detector" else rng.choice(["slos", "permanent"])
+        if what != "backend" and rng.random() < 0.3:
+            v = _nudged(rng, rng.choice(SH_SRC if what == "source" else SH_DET))   # (a default tuned by a LITTLE)
+            ctx.count(f"defaults:small:tuned_in_place_by_a_little:{what}")
         steps.append(["mutate_own", name, what, v])
         ctx.count(f"defaults:tuned_in_place:{what}")
 
@@ -1629,7 +2154,10 @@ def run(ctx: Ctx) -> None:
                 "herald photons / mode split, equal modes but another number of loss elements), in-place circuit edits "
                 "(lossless, heralded gate, loss elements added), Parameter updates, input/source/backend/"
                 "post-selection/detector changes, steps that change nothing or assign an equal value through a new "
-                "object, reads and seeded sampling calls on a long-lived Sampler or "
+                "object, every kind of reconfiguration also SMALL (1e-3 ... 1e-12: Parameter steps incl. circuits next to an "
+                "interference dip, circuits that differ in one value, source / detector values nudged), post-selection given as "
+                "look-alike FUNCTIONS (closures / loop lambdas / partials / bound methods / callable objects, same object "
+                "again) assigned or passed as call argument, reads and seeded sampling calls on a long-lived Sampler or "
                 "QuickSampler, each observation compared with a fresh object AND (whether it recomputed) with the cache "
                 "model; histories in which several Samplers / "
                 "QuickSamplers / Analyzers share Backend / Source / Detector / PostSelection / circuit objects and are "
